@@ -52,3 +52,4 @@ package krpc
 // guarded by recover(): outside the subset as it stands; the contract takes effect if the function is ever rewritten without it
 //@ func (*dht/krpc.Error).UnmarshalBencode
 //@   requires nonnil: e != nil
+
